@@ -34,8 +34,10 @@ ParamFull == ParamSmall \cup
     PT("g", FALSE, FALSE, "range5_20", ":g<range(5,20)>", <<":","g","<","r","a","n","g","e","(","5",",","2","0",")",">">>),
     PT("l", FALSE, FALSE, "len2", ":l<len(2)>", <<":","l","<","l","e","n","(","2",")",">">>) }
 
-Consts == IF Pool = "small" THEN ConstSmall ELSE ConstFull
-Params == IF Pool = "small" THEN ParamSmall ELSE ParamFull
+ConstMid == ConstSmall \cup { C(<<"/","A">>, "/A"), C(<<"/","a","/">>, "/a/") }
+ParamMid == ParamSmall \cup { p \in ParamFull : p.name \in {"r", "z", "b"} }
+Consts == CASE Pool = "small" -> ConstSmall [] Pool = "mid" -> ConstMid [] OTHER -> ConstFull
+Params == CASE Pool = "small" -> ParamSmall [] Pool = "mid" -> ParamMid [] OTHER -> ParamFull
 Segs == Consts \cup Params
 
 WellFormed(p) ==
@@ -47,13 +49,26 @@ WellFormed(p) ==
   \* a ':' parameter directly followed by text that would extend its name is not a pattern of the documented syntax
   /\ \A i \in 1..(Len(p) - 1) : (p[i].k = "p" /\ p[i + 1].k = "c") => p[i + 1].s[1] \in {"/", "-", "."}
 
-Pats == UNION { { p \in [1..n -> Segs] : WellFormed(p) } : n \in 1..MaxSeg }
+\* longer patterns in which a later literal contains a greedy parameter's delimiter more than once
+PX == PT("x", FALSE, FALSE, "none", ":x", <<":","x">>)
+PY == PT("y", TRUE,  FALSE, "none", ":y?", <<":","y","?">>)
+STAR == PT("*", TRUE,  TRUE,  "none", "*", <<"*">>)
+PLUS == PT("+", FALSE, TRUE,  "none", "+", <<"+">>)
+ExtraPats == IF Pool = "small" THEN {} ELSE
+  { << C(<<"/">>, "/"), STAR, C(<<"-">>, "-"), PX, C(<<"-","-">>, "--"), PY >>,
+    << C(<<"/">>, "/"), PLUS, C(<<".">>, "."), PX, C(<<".",".">>, ".."), PY >>,
+    << C(<<"/">>, "/"), STAR, C(<<"/","a","/">>, "/a/"), PX, C(<<"/","a","/","a">>, "/a/a") >>,
+    << C(<<"/","a","/">>, "/a/"), PLUS, C(<<"/","a","b","/">>, "/ab/"), STAR >>,
+    << C(<<"/">>, "/"), PX, C(<<"-">>, "-"), PY, C(<<".">>, "."), STAR >> }
+Pats == UNION { { p \in [1..n -> Segs] : WellFormed(p) } : n \in 1..MaxSeg } \cup ExtraPats
 
 \* ---- values used to fill parameters
 ValSmall == { <<>>, <<"a">>, <<"a","b">>, <<"1","2">>, <<"-","1">>, <<"a","-","b">>, <<"a","/","b">> }
-ValFull == ValSmall \cup { <<"A">>, <<"7">>, <<"t","r","u","e">>, <<"a",".","b">>, <<"%41">>, <<"a","a">>, <<"1","2","3","4">>,
-                           <<"a","%2F","b">>, <<"/">> }
-Vals == IF Pool = "small" THEN ValSmall ELSE ValFull
+\* near misses of the constraints: Go literal syntax is not an <int>, "TRUE"/"tRUE" case variants of <bool>, "A" vs regex(^a+$)
+ValMid == ValSmall \cup { <<"A">>, <<"0","x","1">>, <<"1","_","0">>, <<"t","R","U","E">>, <<"%41">>, <<"/">> }
+ValFull == ValMid \cup { <<"7">>, <<"t","r","u","e">>, <<"a",".","b">>, <<"a","a">>, <<"1","2","3","4">>,
+                          <<"a","%2F","b">>, <<"0","0","8">>, <<"+","5">> }
+Vals == CASE Pool = "small" -> ValSmall [] Pool = "mid" -> ValMid [] OTHER -> ValFull
 
 UpC(c) == IF c = "a" THEN "A" ELSE IF c = "b" THEN "B" ELSE c
 Upper(s) == [i \in 1..Len(s) |-> UpC(s[i])]
@@ -62,7 +77,7 @@ Upper(s) == [i \in 1..Len(s) |-> UpC(s[i])]
 Opts(p, i) ==
   IF p[i].k = "p" THEN [v : Vals, f : {TRUE}] \cup {[v |-> SelectSeq(p[i].s, LAMBDA ch : ch # "?"), f |-> FALSE]}   \* '?' would start the query string
   ELSE {[v |-> p[i].s, f |-> TRUE]}
-       \cup (IF Pool = "full" THEN {[v |-> Upper(p[i].s), f |-> TRUE]} ELSE {})
+       \cup (IF Pool # "small" THEN {[v |-> Upper(p[i].s), f |-> TRUE]} ELSE {})
        \cup (IF i = Len(p) THEN {[v |-> p[i].s \o <<"/">>, f |-> FALSE], [v |-> TrimAll(p[i].s), f |-> FALSE]} ELSE {})
 
 ShortAlpha == {"/", "a", "1", "-", ":"}
@@ -74,7 +89,8 @@ OkPath(s) == s # <<>> /\ s[1] = "/" /\ ~(Len(s) >= 2 /\ s[2] \in {"/", "%2F"})  
 
 CfgsFor(s, p) == [cs : (IF HasUp(s) \/ HasUp(PatText(p)) THEN BOOLEAN ELSE {FALSE}),
                   strict : BOOLEAN,
-                  unesc : (IF HasTok(s) THEN BOOLEAN ELSE {FALSE})]
+                  \* fasthttp's unquoting also turns '+' into a space: paths with '+' are kept out of the UnescapePath configs
+                  unesc : (IF HasTok(s) /\ ~HasChar(s, "+") THEN BOOLEAN ELSE {FALSE})]
 
 NoCfg == [cs |-> FALSE, strict |-> FALSE, unesc |-> FALSE]
 Init == pat \in Pats /\ path = <<>> /\ cfg = NoCfg /\ fill = <<>> /\ stage = 0
@@ -118,7 +134,10 @@ Rec == LET must == AllMust(pat, path, cfg)
            th == FillTheta
            \* without StrictRouting a value ending in '/' is indistinguishable from an ignored trailing slash
            trailOK == cfg.strict \/ \A q \in 1..Len(th) : th[q] = <<>> \/ th[q][Len(th[q])] # "/"
-           pre == fill.is /\ Delimited(pat) /\ Legal(pat, th) /\ trailOK /\ NoExtra(NormPat(pat, cfg), th)
+           \* occurrences are counted on what the matcher compares: case-folded unless CaseSensitive
+           fpat == IF cfg.cs THEN NormPat(pat, cfg) ELSE [i \in 1..Len(NormPat(pat, cfg)) |-> [NormPat(pat, cfg)[i] EXCEPT !.s = IF @ = <<>> THEN @ ELSE Lower(@)]]
+           fth == IF cfg.cs THEN th ELSE [q \in 1..Len(th) |-> Lower(th[q])]
+           pre == fill.is /\ Delimited(pat) /\ Legal(pat, th) /\ trailOK /\ NoExtra(fpat, fth)
        IN [ pat |-> [i \in 1..Len(pat) |-> pat[i].txt],
             path |-> path, cfg |-> cfg,
             may |-> AllMay(pat, path, cfg), must |-> must, use |-> AllUse(pat, path, cfg),
